@@ -150,6 +150,14 @@ def build_pool():
     for how in ("fortran", "transposed_view"):
         pool.append({"op": "dump_one", "fmt": "cube", "out": "o.cube", "obj": {**copy.deepcopy(pool[plain_cube]["obj"]), "mods": [{"op": "cube_layout", "how": how}]},
                      "same_as": plain_cube})
+    # names in which a prefix pattern of one format meets the extension of another (the decision for one name must not
+    # influence the decision for the next), before and after an ordinary file of that extension
+    for stored, src_ in (("POSCAR_relaxed.xyz", "water.xyz"), ("CHGCAR_old.cube", "cubegen_h2o_5points.cube"), ("my.FCIDUMP.xyz", "water.xyz"),
+                         ("plain.xyz", "water.xyz"), ("plain.cube", "cubegen_h2o_5points.cube")):
+        pool.append({"op": "load_one", "file": src_, "as": stored, "fmt": None})
+    # the target "-" is a file named "-" like any other; written twice, it is written the same way twice
+    pool.append({"op": "dump_one", "fmt": "xyz", "out": "-", "obj": {"kind": "corpus", "file": "water.xyz", "mods": []}, "explicit": True})
+    pool.append({"op": "dump_many", "fmt": "xyz", "out": "-", "src": "water_trajectory.xyz", "explicit": True})
     # conversions whose output lies in a directory that does not exist (shared by all clients of a run): the operating
     # system's error is the outcome, alone and interleaved
     for k_, (inp, outn) in enumerate((("water.xyz", "c.xyz"), ("water_trajectory.xyz", "c.pdb"), ("h2o_sto3g.fchk", "c.molden"))):
@@ -277,7 +285,7 @@ def exec_call(call, prep, disk, prefix, reference=False):
     rec = None
     try:
         if op in ("load_one", "load_many", "convert"):
-            path = prefix + call["file"]
+            path = prefix + call.get("as", call["file"])
             disk.put(path, prep["data"])
         if op == "load_one":
             d = iodata.load_one(path, fmt=call.get("fmt"))
@@ -318,7 +326,7 @@ def exec_call(call, prep, disk, prefix, reference=False):
             rec = ["ok", common.short(disk.get(out) or b"", 16), r is prep["obj"]]
         elif op == "dump_many":
             out = prefix + call["out"]
-            iodata.dump_many(iter(prep["frames"]), out)
+            iodata.dump_many(iter(prep["frames"]), out, **({"fmt": call["fmt"]} if call.get("explicit") else {}))
             rec = ["ok", common.short(disk.get(out) or b"", 16)]
         elif op == "write_input":
             out = prefix + call["out"]
@@ -360,7 +368,7 @@ def _child_reference(call, wfd):
         probe = sched.GlobalStoreProbe()
         disk = seams.SimDisk(log_events=False)
         disk.declare_missing("results")
-        with seams.Installed(disk), seams.MemPoison(0), seams.SimClock(CLOCK0), sched.Steps(sched=probe) as st:
+        with seams.Installed(disk), seams.MemPoison(0), seams.SimClock(CLOCK0), _Stdio(), sched.Steps(sched=probe) as st:
             rec = exec_call(call, prep, disk, "", reference=True)
         # does this call write process-global state of any kind (tables, memo caches, rebound names)?
         stateful = bool(probe.hits) or bool(guard.changed()) or bool(canon.clear_function_caches())
@@ -480,6 +488,22 @@ def _set_numpy_print_environment(trace):
     return saved
 
 
+class _Stdio:
+    """A run gets its own sys.stdout / sys.stderr objects (text buffers): code that writes to them, redirects them or
+    closes them does so to the run's objects, as it would to those of the application."""
+
+    def __enter__(self):
+        import io
+
+        self._saved = (sys.stdout, sys.stderr)
+        sys.stdout, sys.stderr = io.StringIO(), io.StringIO()
+        return self
+
+    def __exit__(self, *exc):
+        sys.stdout, sys.stderr = self._saved
+        return False
+
+
 def _set_warning_environment(trace):
     """The application's warning configuration is part of the environment, not of the arguments: 'ignore' (nothing is
     recorded or re-issued by the API wrappers) or 'always' (every warning is shown; here: discarded by the sink)."""
@@ -520,7 +544,7 @@ def run_history(trace, refs, stats=None):
     recs = []
     table_reported = False
     mem = seams.MemPoison(trace.get("mem"))
-    with seams.Installed(disk), mem, seams.SimClock(trace.get("clock")), sched.Steps(budget=_budget(calls)) as st:
+    with seams.Installed(disk), mem, seams.SimClock(trace.get("clock")), _Stdio(), sched.Steps(budget=_budget(calls)) as st:
         for k, (call, prep) in enumerate(zip(calls, preps)):
             try:
                 # "flat" histories use the same names again and again (a name gets other content, an output exists already)
@@ -593,7 +617,7 @@ def run_threads(trace, refs, rng=None, stats=None):
     npsaved = _set_numpy_print_environment(trace)
     budget = _budget([c for cl in clients for c in cl])
     try:
-        with seams.Installed(disk), seams.MemPoison(trace.get("mem")) as mem, seams.SimClock(trace.get("clock")), sched.Steps(budget=budget, sched=baton) as st:
+        with seams.Installed(disk), seams.MemPoison(trace.get("mem")) as mem, seams.SimClock(trace.get("clock")), _Stdio(), sched.Steps(budget=budget, sched=baton) as st:
             done = baton.run([make(i) for i in range(len(clients))])
     except sched.SchedulerStall as exc:
         _restore_warn_state(wst)
